@@ -36,6 +36,7 @@ VARIABLES
   held,       \* item the producer is trying to put
   prun,       \* Producer._running
   pexc,       \* producer task finished with an exception
+  pstopped,   \* (repaired code) stop requested before the producer task's first step
   wpc,        \* worker program counters
   witem,      \* item held by a worker
   wtask,      \* index of the task a worker is at
@@ -47,7 +48,7 @@ VARIABLES
   concs, raises  \* budgets used (stops is an observation variable: PipelineProps)
 
 qvars   == <<q, ec, unfinished, closed>>
-pvars   == <<src, ppc, held, prun, pexc>>
+pvars   == <<src, ppc, held, prun, pexc, pstopped>>
 wvars   == <<wpc, witem, wtask>>
 mvars   == <<wtasks, mpc, pstate, conc, unpaused>>
 obsvars == <<began, ended, orderOK, supplied, returned, lateBegin, raised>>
@@ -59,7 +60,7 @@ MinEntry(S) == CHOOSE e \in S : \A f \in S : (e[1] < f[1]) \/ (e[1] = f[1] /\ e[
 
 InitWith(c0) ==
   /\ q = {} /\ ec = 0 /\ unfinished = 0 /\ closed = FALSE
-  /\ src = 1 /\ ppc = "get" /\ held = 0 /\ prun = TRUE /\ pexc = FALSE
+  /\ src = 1 /\ ppc = "start" /\ held = 0 /\ prun = FALSE /\ pexc = FALSE /\ pstopped = FALSE
   /\ wpc = [w \in Workers |-> "none"] /\ witem = [w \in Workers |-> 0] /\ wtask = [w \in Workers |-> 0]
   /\ wtasks = {} /\ mpc = "loop" /\ pstate = "running" /\ conc = c0 /\ unpaused = (IF FixStopWake THEN c0 > 0 ELSE TRUE)
   /\ stops = 0 /\ concs = 0 /\ raises = 0
@@ -91,11 +92,20 @@ Pills(n) == { <<0, ec + i - 1, PILL>> : i \in 1..n }
 -----------------------------------------------------------------------------
 (* Producer.process / process_one / ItemQueue.put_item / wait_for_worker    *)
 
+\* first step of the producer task: Producer.process() sets _running (a stop request that arrived between
+\* create_task and this step found _running = FALSE; the repaired Producer remembers it in `pstopped`)
+PStart ==
+  /\ ppc = "start"
+  /\ prun' = IF FixStopWake THEN ~pstopped ELSE TRUE
+  /\ ppc' = "get"
+  /\ UNCHANGED <<src, held, pexc, pstopped>>
+  /\ UNCHANGED <<qvars, wvars, mvars, obsvars, budvars>>
+
 \* top of "while self._running", then call of item_source.get_item()
 PLoop ==
   /\ ppc = "get"
   /\ ppc' = IF prun THEN "src" ELSE "exit"
-  /\ UNCHANGED <<src, held, prun, pexc>>
+  /\ UNCHANGED <<src, held, prun, pexc, pstopped>>
   /\ UNCHANGED <<qvars, wvars, mvars, obsvars, budvars>>
 
 \* the source answers
@@ -109,7 +119,7 @@ SrcReturn ==
              THEN prun' = FALSE /\ ppc' = "exit"            \* self.stop(); break
              ELSE /\ ppc' = IF closed THEN "get" ELSE "ww_wait"   \* wait_for_worker(): parks on the condition
                   /\ UNCHANGED prun
-  /\ UNCHANGED pexc
+  /\ UNCHANGED <<pexc, pstopped>>
   /\ UNCHANGED <<qvars, wvars, mvars, budvars>>
   /\ UNCHANGED <<began, ended, orderOK, returned, lateBegin, raised>>
 
@@ -117,7 +127,7 @@ SrcRaise ==
   /\ ppc = "src" /\ raises < MaxRaise
   /\ raises' = raises + 1 /\ raised' = TRUE
   /\ ppc' = "exit_exc"
-  /\ UNCHANGED <<src, held, prun, pexc>>
+  /\ UNCHANGED <<src, held, prun, pexc, pstopped>>
   /\ UNCHANGED <<qvars, wvars, mvars, stops, concs>>
   /\ UNCHANGED <<began, ended, orderOK, supplied, returned, lateBegin>>
 
@@ -129,12 +139,12 @@ PPut ==
      ELSE /\ unfinished' = unfinished + 1
           /\ q' = q \cup {<<1, ec, held>>} /\ ec' = ec + 1
           /\ PutWake(wpc, wpc') /\ held' = 0 /\ ppc' = "get"
-  /\ UNCHANGED <<closed, src, prun, pexc, witem, wtask>>
+  /\ UNCHANGED <<closed, src, prun, pexc, pstopped, witem, wtask>>
   /\ UNCHANGED <<mvars, obsvars, budvars>>
 
 \* Pipeline.stop() body (running -> stopping; producer.stop(); one pill per worker task)
 StopBody ==
-  /\ pstate' = "stopping" /\ prun' = FALSE
+  /\ pstate' = "stopping" /\ prun' = FALSE /\ pstopped' = (pstopped \/ ~prun)
   /\ q' = q \cup Pills(Cardinality(wtasks)) /\ ec' = ec + Cardinality(wtasks)
   /\ PutWakeN(wpc, wpc', Cardinality(wtasks))
   /\ unpaused' = IF FixStopWake THEN TRUE ELSE unpaused
@@ -145,7 +155,7 @@ PExit ==
   /\ ppc' = "done" /\ pexc' = (ppc = "exit_exc")
   /\ IF pstate = "running"
      THEN StopBody
-     ELSE UNCHANGED <<pstate, prun, q, ec, wpc, unpaused>>
+     ELSE UNCHANGED <<pstate, prun, pstopped, q, ec, wpc, unpaused>>
   /\ UNCHANGED <<unfinished, closed, src, held, witem, wtask, wtasks, mpc, conc>>
   /\ UNCHANGED <<obsvars, budvars>>
 
@@ -167,7 +177,7 @@ WGet(w) ==
                   /\ witem' = [witem EXCEPT ![w] = e[3]] /\ wtask' = [wtask EXCEPT ![w] = 1]
                   /\ began' = [began EXCEPT ![1][e[3]] = IF @ < 2 THEN @ + 1 ELSE @]
                   /\ lateBegin' = (lateBegin \/ stops > 0)
-  /\ UNCHANGED <<ec, unfinished, closed, src, held, prun, pexc>>
+  /\ UNCHANGED <<ec, unfinished, closed, src, held, prun, pexc, pstopped>>
   /\ UNCHANGED <<mvars, budvars>>
   /\ UNCHANGED <<ended, orderOK, supplied, returned, raised>>
 
@@ -200,7 +210,7 @@ ItemDone(w) ==
   /\ unfinished' = unfinished - 1
   /\ ppc' = Notified(ppc)
   /\ wpc' = [wpc EXCEPT ![w] = "get"] /\ witem' = [witem EXCEPT ![w] = 0] /\ wtask' = [wtask EXCEPT ![w] = 0]
-  /\ UNCHANGED <<q, ec, closed, src, held, prun, pexc>>
+  /\ UNCHANGED <<q, ec, closed, src, held, prun, pexc, pstopped>>
   /\ UNCHANGED <<mvars, obsvars, budvars>>
 
 -----------------------------------------------------------------------------
@@ -252,7 +262,7 @@ MShutWorkers ==
   /\ IF FixStopWake
      THEN closed' = TRUE /\ ppc' = Notified(ppc)
      ELSE UNCHANGED <<closed, ppc>>
-  /\ UNCHANGED <<q, ec, unfinished, src, held, prun, pexc, witem, wtask, pstate, conc, unpaused>>
+  /\ UNCHANGED <<q, ec, unfinished, src, held, prun, pexc, pstopped, witem, wtask, pstate, conc, unpaused>>
   /\ UNCHANGED <<obsvars, budvars>>
 
 \* yield from self._producer_task
@@ -273,7 +283,7 @@ Stop ==
   /\ stops' = stops + 1
   /\ IF pstate = "running"
      THEN StopBody
-     ELSE UNCHANGED <<pstate, prun, q, ec, wpc, unpaused>>
+     ELSE UNCHANGED <<pstate, prun, pstopped, q, ec, wpc, unpaused>>
   /\ UNCHANGED <<unfinished, closed, src, ppc, held, pexc, witem, wtask, wtasks, mpc, conc>>
   /\ UNCHANGED <<obsvars, concs, raises>>
 
@@ -293,7 +303,7 @@ SetConc(c) ==
 
 -----------------------------------------------------------------------------
 SysNext ==
-  \/ PLoop \/ PPut \/ PExit
+  \/ PStart \/ PLoop \/ PPut \/ PExit
   \/ SrcReturn
   \/ \E w \in Workers : WGet(w) \/ BodyDone(w) \/ ItemDone(w)
   \/ MLoop \/ MWake \/ MUnpause \/ MShutWorkers \/ MShutProducer
@@ -322,7 +332,7 @@ StopReturns == (stops > 0) ~> Terminal
 
 TypeOK ==
   /\ unfinished \in 0..(K + 1) /\ src \in 1..(K + 1) /\ conc \in 0..CMax
-  /\ ppc \in {"get", "src", "put", "put_wait", "ww_wait", "exit", "exit_exc", "done"}
+  /\ ppc \in {"start", "get", "src", "put", "put_wait", "ww_wait", "exit", "exit_exc", "done"}
   /\ \A w \in Workers : wpc[w] \in {"none", "get", "parked", "body", "fin", "exited", "crashed"}
   /\ mpc \in {"loop", "waiting", "paused", "shut_workers", "shut_producer", "returned", "error"}
 =============================================================================
